@@ -158,9 +158,11 @@ def fd_judge(ctx, f, theta, g, key, what, point, kappa=1.0, max_coords=48, class
                     worst = (d, (idx, gv, f1, f2))
             else:
                 unstable = True
-        _worst(ctx, 'worst_fd_disagreement_over_(1+gmax)', point, d / (1 + gmax))
+        else:
+            _worst(ctx, 'worst_fd_disagreement_over_(1+gmax)', point, d / (1 + gmax))
     if worst[1] is not None:
         idx, gv, f1, f2 = worst[1]
+        _worst(ctx, 'worst_fd_disagreement_over_(1+gmax)', point, worst[0] / (1 + gmax))
         k = key
         if classes is not None and idx >= 0:
             k = f'{key}/{classes[idx]}'
